@@ -70,6 +70,11 @@ type C12User struct {
 	Friends []*C12User `gorm:"many2many:c12_friends"`
 	Seal    C12Seal
 	Parts   []*C12Part
+	// self-referential relations over c12_users itself (targets are rows of the OWNER table)
+	ManagerID *uint
+	Team      []C12User `gorm:"foreignKey:ManagerID"`
+	BuddyID   *uint
+	Buddy     *C12User `gorm:"foreignKey:BuddyID"` // kept apart from Manager/Team: a belongs-to that is nobody's inverse
 }
 
 var c12Models = []interface{}{&C12Home{}, &C12Card{}, &C12Item{}, &C12Tag{}, &C12Note{}, &C12Badge{}, &C12Seal{}, &C12Part{}, &C12User{}}
@@ -99,6 +104,8 @@ var c12Kinds = []c12Kind{
 	{Name: "has_one_val", Field: "Seal", Class: "fk", Card1: true, Table: "c12_seals", FK: "c12_user_id"},
 	{Name: "has_many_ptr", Field: "Parts", Class: "fk", Table: "c12_parts", FK: "c12_user_id"},
 	{Name: "self_m2m", Field: "Friends", Class: "m2m", Table: "c12_users", Join: "c12_friends", JOwner: "c12_user_id", JTgt: "friend_id"},
+	{Name: "self_has_many", Field: "Team", Class: "fk", Table: "c12_users", FK: "manager_id"},
+	{Name: "self_belongs_to", Field: "Buddy", Class: "bt", Card1: true, Table: "c12_users", FK: "buddy_id"},
 }
 
 func c12KindByName(n string) *c12Kind {
@@ -254,7 +261,7 @@ func c12Targets(db *gorm.DB, k *c12Kind) ([]int, map[int]string) {
 		if err := rows.Scan(&id, &name); err != nil {
 			panic(err)
 		}
-		if k.Name == "self_m2m" && id <= c12Bystander {
+		if k.Table == "c12_users" && id <= c12Bystander {
 			continue // the owners themselves
 		}
 		if k.Poly && id < 10 {
